@@ -96,8 +96,13 @@ impl GraphBlock {
             GraphBlock::BlockQuote(blocks) => {
                 blocks_to_markdown_sparce(blocks, options)
                     .lines()
-                    .map(|line| format!("> {}", line))
-                    .map(|line| line.trim().to_string())
+                    .map(|line| {
+                        if line.is_empty() {
+                            ">".to_string()
+                        } else {
+                            format!("> {}", line)
+                        }
+                    })
                     .collect::<Vec<String>>()
                     .join("\n")
                     + "\n"
